@@ -104,6 +104,29 @@ class SymEx:
     def assume(self, cond):
         self.c.assume(cond)
 
+    def under(self, cond):
+        """Context manager: temporarily add a hypothesis; yields whether it is feasible."""
+        import contextlib
+        c = self.c
+
+        @contextlib.contextmanager
+        def cm():
+            if isinstance(cond, (bool, np.bool_)):
+                yield bool(cond)
+                return
+            e = P.b_z3(cond)
+            c.solver.push()
+            c.light.push()
+            c.solver.add(e)
+            c.light.add(e)
+            try:
+                r, _ = c._check()
+                yield r == 'sat'
+            finally:
+                c.solver.pop()
+                c.light.pop()
+        return cm()
+
     def note(self, key, val=1):
         self.covered[key] = self.covered.get(key, 0) + val
 
@@ -127,6 +150,12 @@ class SymEx:
                 self.claims.append(Claim(label, 'inconclusive', 'unknown'))
             return False
         neg = z3.Not(claim)
+        if c.n_heavy:
+            # stage 1: path condition + linear axioms only (unsat there is unsat overall)
+            r, m = c._check(neg, light=True)
+            if r == 'unsat':
+                self.claims.append(Claim(label, 'held', 'light'))
+                return True
         r, m = c._check(neg)
         if r == 'unsat':
             self.claims.append(Claim(label, 'held'))
@@ -402,6 +431,14 @@ class ConEx:
     def assume(self, cond):
         if not bool(np.all(cond)):
             raise AssumptionViolated()
+
+    def under(self, cond):
+        import contextlib
+
+        @contextlib.contextmanager
+        def cm():
+            yield bool(np.all(cond))
+        return cm()
 
     def note(self, key, val=1):
         self.covered[key] = self.covered.get(key, 0) + val
